@@ -15,27 +15,33 @@ CHECKS = {
         engine='cv-timeout', design='4-C02',
         text=('Seeded search: the real caller_reducer/wrapper is run under a virtual SIGALRM that fires at a '
               'PRNG-chosen line event of a PRNG-chosen attempt (1..ladder+1 firings), ladders, --skip-failed and '
-              'threads varied; the result after interrupted attempts must be contained in fault-free results of '
-              'the same code on a pristine copy of the dispatch (final limits / first limits / unbounded). '
-              'Evidence, not proof; decides only the timeout/retry clause of C02.'),
+              'threads varied, alarm placement stratified over the stages of an attempt; every peptide of the result '
+              'after interrupted attempts must be produced by the uninterrupted run with the initial limits, or else '
+              'by the run without complexity limits (the reduced limits own output is not a justification). '
+              'Generated references with planted variant clusters, paralog references and 70 corpus inputs from the '
+              'repository tests. Evidence, not proof; decides only the timeout/retry clause of C02.'),
         note=('Assumes fault-free executions are sound (pure-input clause of C02, not applicable to this '
               'technique); alarms are line-granular, C code is atomic; SimPool/FakeSignal are stubs.'),
         technique=TECH + ' (virtual clock/alarm at line events, retry ladder, subset oracle vs fault-free runs)'),
     'C04': dict(
         engine='c04-monitor', design='4-C04',
         text=('Invariant monitor evaluated on every simulated callVariant execution (all thread counts, layouts, '
-              'unit faults, timeouts/retries) and on callNovelORF / callAltTranslation runs per generated reference: '
-              'no canonical / I->L peptide, length/mass/alphabet limits, uniqueness, table == FASTA pairs, row slices.'),
-        note=('Input space is the simulator workload (moPepGen.fake references), not a generator aimed at '
-              'boundary lengths/masses; the canonical pool is taken as what the run itself loads.'),
+              'unit faults, timeouts/retries) and on callNovelORF / callAltTranslation runs (two draws of binding '
+              'limits each): no canonical / I->L peptide, length/mass/alphabet limits, uniqueness, table == FASTA '
+              'pairs, row slices. A fifth of the references (half of the one-shot ones) carry a near-identical paralog '
+              'of every gene, so that variant and W>F peptides collide with canonical ones.'),
+        note=('The canonical pool is taken as what the run itself loads (whether that pool is the right digest is '
+              'C10, not applicable); limits are drawn so that they bind.'),
         technique=TECH + ' (always-on invariant monitor over simulated runs)'),
     'C06': dict(
         engine='cv-sched', design='4-C06',
         text=('Seeded search over schedules and layouts: threads 1..8 through a PRNG-ordered in-process pool with '
               'pickle isolation, batch compositions incl. skipped transcripts, partitions/orders of GVF files, .idx '
               'subset, generateIndex directory, pointer-cache sizes, identity-hash order (order seam) and '
-              'PYTHONHASHSEED (second interpreter); oracle = equality of the peptide-sequence set with a reference '
-              'execution of the same input.'),
+              'PYTHONHASHSEED (second interpreter), index directories generated for other parameters, non-ASCII GVF '
+              'headers; oracle = equality of the peptide-sequence set with a reference execution of the same input; '
+              'plus one and the same virtual-alarm plan under --threads 1 and --threads k. One input per quick run '
+              '(four per thorough run) is also executed through the real pathos pool (stub calibration).'),
         note=('SimPool models pathos map semantics, not OS scheduling; compat layer L0 and the order seam alter '
               'three constructors / the __hash__ of identity-hashed classes (listed in evidence).'),
         technique=TECH + ' (schedule/layout perturbation vs reference execution)'),
@@ -44,10 +50,12 @@ CHECKS = {
         text=('Seeded fault injection: any subset of processing units (main/fusion/circRNA/gather) fails at entry or '
               'at the k-th line event inside the unit; with --skip-failed the run must complete and equal (sequences, '
               'header entries, table rows) the run where those units cleanly produced nothing, be sandwiched by the '
-              'fault-free run, tally correctly; without the flag it must abort without a FASTA. Same for row '
-              'failures in the four parsers.'),
-        note=('Faults are Python exceptions at line granularity; absorbed faults are discarded; parser workload '
-              'is the demo tool outputs (few rows).'),
+              'fault-free run (attribution by what each unit returned), tally correctly; without the flag it must '
+              'abort without a FASTA. Second fault source: units that fail by themselves under cleavage rules the '
+              'graph code cannot handle. Same for row failures in the four parsers (injected around the conversion, '
+              'or rows that fail by themselves).'),
+        note=('Faults are Python exceptions at line granularity; absorbed faults are discarded; header entry strings '
+              'are not compared (order-sensitive), only the attribution of sequences to backbones.'),
         technique=TECH + ' (unit-level fault injection, clean-skip reference model)'),
     'C11': dict(
         engine='gtf-store', design='4-C11',
@@ -55,7 +63,9 @@ CHECKS = {
               'bounded caches with randomised sizes 1..12, raw-GTF vs .idx construction, write->reparse) compared '
               'operation by operation with the fully parsed annotation and flat position lists; coordinate / '
               'sequence cross-invariants checked on every touched model.'),
-        note='Generated annotations are single-isoform (moPepGen.fake) plus the multi-isoform demo GTF; no abutting exons.',
+        note=('Annotations: generated (also rewritten in the Ensembl dialect, with second isoforms, start codons, '
+              'non-ASCII bytes), the demo GTF and 32 downsampled real references; the intron-rejection invariant is '
+              'only applied to generated annotations (no abutting exons).'),
         technique=TECH + ' (stateful access histories vs reference model)'),
     'C12': dict(
         engine='index-store', design='4-C12',
@@ -63,23 +73,28 @@ CHECKS = {
               'on one directory, every operation a fresh invocation sharing only the directory; dictionary model '
               'params -> pool computed on the fly; after every operation every registered pool and all reference '
               'data are reloaded and compared.'),
-        note='Crash atomicity of the directory is not demanded (C12 is stated over invocation sequences).',
+        note=('Crash atomicity of the directory is not demanded (C12 is stated over invocation sequences); version '
+              'skew includes the metadata layout of pre-1.3.0 releases; proteomes contain X / * proteins.'),
         technique=TECH + ' (stateful invocation histories over a durable directory vs dictionary model)'),
     'C13': dict(
         engine='gvf-store', design='4-C13',
         text=('Hypothesis stateful histories over GVF files + .idx side-cars + shared seekable handles: record round '
               'trip W(P(W(r)))==W(r) for all record kinds, per-transcript loads in random order vs linear scan, '
-              'with/without idx, and edit-after-index faults (append/delete/swap/byte flip/foreign idx/no checksum) '
-              'that must be rejected.'),
+              'with/without idx, pool[tx] idempotence, edit-after-index faults (append/delete/swap/byte flip/foreign '
+              'idx/no checksum) that must be rejected, and indexGVF killed at a PRNG-chosen line event followed by a '
+              're-open (whatever .idx is found must be refused or equivalent to the scan).'),
         note='Corrupted pointer lines under a valid checksum are outside the property (checksum covers the GVF only).',
         technique=TECH + ' (file-store histories with stale-index faults vs linear-scan model)'),
     'C20': dict(
         engine='decoy', design='4-C20',
         text=('Seeded search over option sets: same seed => byte-identical output under different prior global-RNG '
               'states and under another PYTHONHASHSEED in a fresh interpreter; permuted arrival order of targets => '
-              'same record set and arrangement; structural monitors (targets unchanged, one decoy per target, '
-              'permutation of residues). Decides the reproducibility/order clause only.'),
-        note='Which positions stay fixed is a pure-input clause (not applicable); inputs have unique sequences.',
+              'same record set and arrangement; an intervening call with other options must not change the next '
+              'identical call; structural monitors (targets unchanged, one decoy per target, permutation of residues, '
+              'termini and listed residues fixed). Decides the reproducibility/order clause and the oracle-free '
+              'structural clauses.'),
+        note=('Which residues at enzyme cleavage sites stay fixed is a pure-input clause (not decided); inputs with '
+              'duplicated sequences are judged on the per-record clauses only.'),
         technique=TECH + ' (RNG-state / hash-seed / arrival-order perturbation)'),
 }
 
